@@ -1,3 +1,244 @@
-//! C01 — not yet built
-use crate::ctx::Ctx;
-pub fn run(c: &mut Ctx) { c.notes.push("C01: not implemented".into()); }
+//! C01 — save then load returns the same document.
+//! Object level: real Writer::write_object / _direct_object vs the model (write_obj / parse_obj),
+//! oracle parse(write(o) ++ rest) = norm(o). Document level: real save_to (table and stream)
+//! vs the model's bytes (`save`), oracle load_mem(save_to(d)) ≅ d, repeated cycles.
+use crate::codec::*;
+use crate::ctx::{guard, Ctx};
+use crate::gen::*;
+use crate::rng::Rng;
+use lopdf::xref::XrefType;
+use lopdf::{Dictionary, Document, Object};
+use serde_json::json;
+
+/// `norm`: an integral real may come back as the integer of the same value — nothing else
+pub fn norm(o: &Object) -> Object {
+    match o {
+        // the integer read back is the one the decimal text denotes; it must convert to the same f32
+        Object::Real(f) if f.fract() == 0.0 && *f >= -9.223372e18 && *f < 9.223372e18 => {
+            match format!("{}", f).parse::<i64>() { Ok(i) if (i as f32) == *f => Object::Integer(i), _ => o.clone() }
+        }
+        Object::Array(a) => Object::Array(a.iter().map(norm).collect()),
+        Object::Dictionary(d) => Object::Dictionary(norm_dict(d)),
+        Object::Stream(s) => { let mut s = s.clone(); s.dict = norm_dict(&s.dict); s.start_position = None; s.allows_compression = true; Object::Stream(s) }
+        x => x.clone(),
+    }
+}
+pub fn norm_dict(d: &Dictionary) -> Dictionary {
+    let mut n = Dictionary::new();
+    for (k, v) in d.iter() { n.set(k.clone(), norm(v)); }
+    n
+}
+/// structural equality, reals compared by bits of the f32 (−0.0 == 0.0 allowed: Display prints "-0" → integer 0)
+pub fn same(a: &Object, b: &Object) -> bool { show_obj(a) == show_obj(b) || a == b }
+
+pub fn write_real(o: &Object) -> Vec<u8> {
+    let mut v = Vec::new();
+    lopdf::verif_api::Writer::write_object(&mut v, o).expect("write to Vec");
+    v
+}
+
+fn parse_reply(bytes: &[u8]) -> String {
+    match lopdf::verif_api::direct_object(bytes) {
+        Some((o, used)) => format!("ok {} {}", used, show_obj(&o)),
+        None => "err".into(),
+    }
+}
+
+fn gen_rest(r: &mut Rng) -> Vec<u8> {
+    // what may follow an object inside a file: a delimiter / white space / end, then anything
+    let starts: &[&[u8]] = &[b"", b" ", b"\n", b"]", b">>", b"/N", b"(s)", b"<41>", b"[", b"\nendobj\n", b" % c\n7", b"\r\n1 0 obj"];
+    let mut v = r.pick(starts).to_vec();
+    if !v.is_empty() && r.chance(1, 3) { v.extend(gen_bytes(r, 8)); }
+    v
+}
+
+pub fn run(c: &mut Ctx) {
+    c.rule = "objects of all direct kinds nested to depth 5 with bytes weighted to ()\\#/%<>[]{} NUL CR LF 0x80-0xFF, extreme integers, \
+finite reals from the f32 bit space, extreme references; byte sweeps through name / literal / hex string / key; token soups for the parser; \
+documents with sparse ids, generations, streams, any version / binary mark x table|stream xref, 3 save/load cycles. \
+Non-trivial = object with >= 1 non-plain byte or nesting, or document with >= 2 objects; distinct by request text.".into();
+    objects(c);
+    sweeps(c);
+    soups(c);
+    documents(c);
+}
+
+fn check_object(c: &mut Ctx, o: &Object, rest: &[u8], tag: &str) {
+    let req = format!("write_obj {}", show_obj(o));
+    match guard(|| write_real(o)) {
+        Ok(bytes) => {
+            c.corr(req.clone(), format!("ok {}", hex_tok(&bytes)));
+            let mut inp = bytes.clone(); inp.extend_from_slice(rest);
+            c.corr(format!("parse_obj {}", hex_tok(&inp)), parse_reply(&inp));
+            // oracle: parse (write o ++ rest) gives norm o and consumes the written bytes + following space
+            match lopdf::verif_api::direct_object(&inp) {
+                Some((back, used)) => {
+                    if !same(&back, &norm(o)) {
+                        c.oracle_fail(&format!("obj-rt:{}", sig_of(o)), "object read back differs from the one written",
+                            json!({"object": show_obj(o), "written": hex(&bytes), "rest": hex(rest), "read": show_obj(&back)}));
+                    } else if used < bytes.len() {
+                        c.oracle_fail("obj-rt:short", "parser consumed less than the writer wrote", json!({"object": show_obj(o), "written": hex(&bytes), "used": used}));
+                    }
+                }
+                None => c.oracle_fail(&format!("obj-rt:{}", sig_of(o)), "written object does not parse", json!({"object": show_obj(o), "written": hex(&bytes), "rest": hex(rest)})),
+            }
+            c.count(&format!("{}.cases", tag));
+        }
+        Err((site, msg)) => c.oracle_fail(&format!("panic@{}", site), &msg, json!({"object": show_obj(o)})),
+    }
+}
+
+/// signature of an object for known-finding matching: which risky features it contains
+fn sig_of(o: &Object) -> String {
+    fn walk(o: &Object, f: &mut Vec<&'static str>) {
+        match o {
+            Object::Real(v) => { if !v.is_finite() { f.push("nonfinite-real"); } }
+            Object::Array(a) => a.iter().for_each(|x| walk(x, f)),
+            Object::Dictionary(d) => d.iter().for_each(|(_, x)| walk(x, f)),
+            _ => {}
+        }
+    }
+    let mut f = vec![]; walk(o, &mut f); f.sort(); f.dedup();
+    if f.is_empty() { "plain".into() } else { f.join("+") }
+}
+
+fn objects(c: &mut Ctx) {
+    let n = c.n(3000, 60000);
+    for i in 0..n {
+        let Some(mut r) = c.case("obj", i) else { continue };
+        let depth = r.usize(6);
+        let o = gen_obj(&mut r, depth);
+        let rest = gen_rest(&mut r);
+        let s = show_obj(&o);
+        if s.len() > 6 { c.nontrivial(&s); }
+        match &o { Object::Real(f) => { c.count("obj.real"); if f.fract() == 0.0 { c.count("obj.real_integral"); } if f.abs() >= 9.2e18 { c.count("obj.real_outside_i64"); } }
+                   Object::Array(_) | Object::Dictionary(_) => c.count("obj.container"), Object::String(..) => c.count("obj.string"), Object::Name(_) => c.count("obj.name"), _ => c.count("obj.scalar") }
+        if i < 3 { c.sample(json!({"stream": "obj", "object": s, "written": String::from_utf8_lossy(&write_real(&o)).to_string()})); }
+        check_object(c, &o, &rest, "obj");
+    }
+    // fixed regression witnesses (repaired defects): must stay repaired
+    let Some(_) = c.case("witness", 0) else { return };
+    let w1 = Object::Real(1e19);
+    let back = lopdf::verif_api::direct_object(&write_real(&w1));
+    c.witness("F-C01-a", !matches!(back, Some((Object::Real(v), _)) if v == 1e19), "Real(1e19) must be written so that it reads back as the same real");
+    let mut deep = vec![b'('; 150]; deep.extend(vec![b')'; 150]);
+    let w2 = Object::String(deep.clone(), lopdf::StringFormat::Literal);
+    let back = lopdf::verif_api::direct_object(&write_real(&w2));
+    c.witness("F-C01-b", !matches!(back, Some((Object::String(ref s, _), _)) if *s == deep), "literal string with 150 nested parentheses must read back");
+}
+
+fn sweeps(c: &mut Ctx) {
+    // all byte pairs (thorough) / all single bytes + sampled pairs (quick) as name, literal, hex string, key
+    let Some(mut r) = c.case("sweep", 0) else { return };
+    let mut pairs: Vec<Vec<u8>> = (0..=255u8).map(|b| vec![b]).collect();
+    if c.quick() { for _ in 0..4096 { pairs.push(vec![r.byte(), r.byte()]); } }
+    else { for a in 0..=255u8 { for b in 0..=255u8 { pairs.push(vec![a, b]); } } }
+    for p in &pairs {
+        for kind in 0..4 {
+            let o = match kind {
+                0 => Object::Name(p.clone()),
+                1 => Object::String(p.clone(), lopdf::StringFormat::Literal),
+                2 => Object::String(p.clone(), lopdf::StringFormat::Hexadecimal),
+                _ => { let mut d = Dictionary::new(); d.set(p.clone(), Object::Integer(1)); Object::Dictionary(d) }
+            };
+            c.nontrivial(&show_obj(&o));
+            c.evaluations += 1;
+            check_object(c, &o, b" 0", "sweep");
+        }
+    }
+    c.extra.insert("sweep_exhaustive_pairs".into(), json!(!c.quick()));
+}
+
+fn soups(c: &mut Ctx) {
+    // parser-only correspondence on token soups (mostly not valid objects)
+    const TOK: &[&[u8]] = &[b"1", b"0", b"R", b" ", b"\n", b"-", b"+", b".", b"5", b"/", b"#", b"4", b"1", b"(", b")", b"\\", b"<", b">", b"[", b"]", b"<<", b">>",
+        b"true", b"false", b"null", b"%x\n", b"%", b"\r", b"9223372036854775807", b"9223372036854775808", b"4294967296", b"65536", b"/A", b"(a)", b"<4>", b"\\053", b"\\8", b"z", b"#4G"];
+    let n = c.n(4000, 80000);
+    for i in 0..n {
+        let Some(mut r) = c.case("soup", i) else { continue };
+        let k = 1 + r.usize(10);
+        let mut inp = vec![];
+        for _ in 0..k { if r.chance(1, 8) { inp.push(special_byte(&mut r)); } else { let t: &[u8] = *r.pick(TOK); inp.extend_from_slice(t); } }
+        let reply = match guard(|| parse_reply(&inp)) { Ok(s) => s, Err((site, msg)) => { c.oracle_fail(&format!("panic@{}", site), &msg, json!({"input": hex(&inp)})); continue; } };
+        if reply != "err" { c.count("soup.parsed"); c.nontrivial(&hex(&inp)); } else { c.count("soup.rejected"); }
+        c.corr(format!("parse_obj {}", hex_tok(&inp)), reply);
+    }
+}
+
+/// canonical reply of the real loader for the `load` operation
+pub fn load_reply(bytes: &[u8]) -> String {
+    match guard(|| Document::load_mem(bytes)) {
+        Ok(Ok(d)) => format!("ok {} {} {} {} {} {}", d.max_id, d.xref_start, hex_tok(d.version.as_bytes()), hex_tok(&d.binary_mark),
+            show_obj(&Object::Dictionary(d.trailer.clone())), show_objects(d.objects.iter())),
+        Ok(Err(_)) => "err".into(),
+        Err(_) => "panic".into(),
+    }
+}
+
+pub fn doc_request(kind: &str, doc: &Document) -> String {
+    format!("save {} {} {} {} {} {}", kind, doc.max_id, hex_tok(doc.version.as_bytes()), hex_tok(&doc.binary_mark),
+        show_obj(&Object::Dictionary(doc.trailer.clone())), show_objects(doc.objects.iter()))
+}
+
+/// keys that are cross-reference bookkeeping and may differ after a cycle
+const BOOKKEEPING: &[&[u8]] = &[b"Size", b"Prev", b"Type", b"W", b"Index", b"Length", b"Filter", b"DecodeParms", b"XRefStm"];
+
+pub fn compare_docs(orig: &Document, back: &Document, xref_stream: bool) -> Option<String> {
+    if orig.version != back.version { return Some(format!("version {:?} -> {:?}", orig.version, back.version)); }
+    let mut ids: Vec<_> = orig.objects.iter().filter(|(_, o)| !skipped(o)).map(|(k, _)| *k).collect();
+    ids.sort();
+    let mut back_ids: Vec<_> = back.objects.iter().filter(|(_, o)| !(xref_stream && is_xref_stream(o))).map(|(k, _)| *k).collect();
+    back_ids.sort();
+    if ids != back_ids { return Some(format!("object ids {:?} -> {:?}", ids, back_ids)); }
+    for id in ids {
+        let a = norm(&orig.objects[&id]); let b = norm(&back.objects[&id]);
+        if !same(&a, &b) { return Some(format!("object {:?}: {} -> {}", id, show_obj(&a), show_obj(&b))); }
+    }
+    let strip = |d: &Dictionary| { let mut n = norm_dict(d); for k in BOOKKEEPING { n.remove(k); } n };
+    let (ta, tb) = (strip(&orig.trailer), strip(&back.trailer));
+    if ta != tb { return Some(format!("trailer {} -> {}", show_obj(&Object::Dictionary(ta)), show_obj(&Object::Dictionary(tb)))); }
+    None
+}
+fn skipped(o: &Object) -> bool { matches!(o.type_name(), Ok(b"ObjStm") | Ok(b"XRef") | Ok(b"Linearized")) }
+fn is_xref_stream(o: &Object) -> bool { matches!(o, Object::Stream(s) if s.dict.has_type(b"XRef")) }
+
+fn documents(c: &mut Ctx) {
+    let n = c.n(300, 5000);
+    for i in 0..n {
+        let Some(mut r) = c.case("doc", i) else { continue };
+        let mut doc = gen_doc(&mut r);
+        let stream = r.chance(1, 2);
+        doc.reference_table.cross_reference_type = if stream { XrefType::CrossReferenceStream } else { XrefType::CrossReferenceTable };
+        if doc.objects.len() >= 2 { c.nontrivial(&format!("{}{}", i, doc.objects.len())); }
+        c.count(if stream { "doc.xref_stream" } else { "doc.xref_table" });
+        let kind = if stream { "stream" } else { "table" };
+        let orig = doc.clone();
+        let mut cur = doc;
+        for cycle in 0..3 {
+            let before = cur.clone();
+            let req = doc_request(kind, &cur);
+            let mut buf = Vec::new();
+            match guard(|| cur.save_to(&mut buf)) {
+                Ok(Ok(())) => {
+                    c.corr(req, format!("ok {} {} {}", hex_tok(&buf), cur.max_id, show_obj(&Object::Dictionary(cur.trailer.clone()))));
+                    c.corr(format!("load {}", hex_tok(&buf)), load_reply(&buf));
+                    match guard(|| Document::load_mem(&buf)) {
+                        Ok(Ok(back)) => {
+                            if let Some(diff) = compare_docs(&before, &back, stream) {
+                                c.oracle_fail("doc-rt", &format!("cycle {}: {}", cycle, diff), json!({"file": hex(&buf), "kind": kind}));
+                                break;
+                            }
+                            if cycle == 0 && i < 2 { c.sample(json!({"stream": "doc", "kind": kind, "objects": orig.objects.len(), "file_len": buf.len()})); }
+                            cur = back;
+                            cur.reference_table.cross_reference_type = if stream { XrefType::CrossReferenceStream } else { XrefType::CrossReferenceTable };
+                        }
+                        Ok(Err(e)) => { c.oracle_fail("doc-rt:load-error", &format!("cycle {}: saved file does not load: {:?}", cycle, e), json!({"file": hex(&buf), "kind": kind})); break; }
+                        Err((site, msg)) => { c.oracle_fail(&format!("panic@{}", site), &msg, json!({"file": hex(&buf)})); break; }
+                    }
+                }
+                Ok(Err(e)) => { c.corr(req, "err".into()); c.count("doc.save_error"); let _ = e; break; }
+                Err((site, msg)) => { c.oracle_fail(&format!("panic@{}", site), &msg, json!({"kind": kind})); break; }
+            }
+        }
+    }
+}
